@@ -16,8 +16,9 @@ EXTENDS Integers, Sequences, FiniteSets, TLC
 CONSTANTS N,          \* parties 0..N-1, 0 is the leader
           C,          \* connections per pair
           CountFirst, \* BOOLEAN, see above
-          EarlyAccept \* BOOLEAN: FALSE as coded - a joiner starts its accept goroutine after it has read the peer
+          EarlyAccept,\* BOOLEAN: FALSE as coded - a joiner starts its accept goroutine after it has read the peer
                       \* list and set need[]; TRUE is the deviation "accept loop started at the beginning of Connect"
+          DialAnyOrder \* BOOLEAN: TRUE - the targets of one round are dialled in any order; FALSE - lowest id first
 
 Party == 0..(N-1)
 Joiner == 1..(N-1)
@@ -112,17 +113,21 @@ RecvList(j) == /\ pc[j] = <<"hello.post">>
                /\ pc' = [pc EXCEPT ![j] = AfterDials(j, 0, {}, peers'[j])]
                /\ UNCHANGED <<conns, backlog, hello, acur, list, errs>>
 
-\* one dial(): net.Dial, hello, flush, SetConn
+\* one dial(): net.Dial, hello, flush, SetConn.  The property does not depend on the order in which a party dials
+\* its targets of one round: DialAnyOrder = TRUE lets it dial them in every order (model checking, trace validation);
+\* FALSE is the order of the pinned code, lowest id first (the behaviour generator, whose behaviours are replayed).
 DialTarget(j) == MinOf(Targets(j, pc[j][2], peers[j]) \ pc[j][3])
-Dial(j) == /\ pc[j][1] = "dial"
-           /\ LET c == pc[j][2]
-                  done == pc[j][3]
-                  q == DialTarget(j) IN
-              /\ backlog' = [backlog EXCEPT ![q] = Append(@, <<j, q, c>>)]
-              /\ hello' = hello \cup {<<j, q, c>>}
-              /\ conns' = [conns EXCEPT ![j][<<q, c>>] = <<j, q, c>>]
-              /\ pc' = [pc EXCEPT ![j] = AfterDials(j, c, done \cup {q}, peers[j])]
-           /\ UNCHANGED <<need, peers, apc, acur, list, errs>>
+DialChoices(j) == IF DialAnyOrder THEN Targets(j, pc[j][2], peers[j]) \ pc[j][3] ELSE {DialTarget(j)}
+DialTo(j, q) == /\ pc[j][1] = "dial"
+                /\ q \in DialChoices(j)
+                /\ LET c == pc[j][2]
+                       done == pc[j][3] IN
+                   /\ backlog' = [backlog EXCEPT ![q] = Append(@, <<j, q, c>>)]
+                   /\ hello' = hello \cup {<<j, q, c>>}
+                   /\ conns' = [conns EXCEPT ![j][<<q, c>>] = <<j, q, c>>]
+                   /\ pc' = [pc EXCEPT ![j] = AfterDials(j, c, done \cup {q}, peers[j])]
+                /\ UNCHANGED <<need, peers, apc, acur, list, errs>>
+Dial(j) == pc[j][1] = "dial" /\ \E q \in DialChoices(j) : DialTo(j, q)
 
 (***************************************************************************)
 (* Accept goroutine                                                        *)
